@@ -184,7 +184,10 @@ class Core:
         return z3.Const(name, sort)
 
     def fresh_val(self, ty, hint="v"):
-        return Val(ty, self.fresh(self.S.sort(ty), hint))
+        v = Val(ty, self.fresh(self.S.sort(ty), hint))
+        if ty.kind == "List" and not self.dry:
+            self.assume(self.list_len(v) >= 0)      # type invariant of python lists
+        return v
 
     def uf(self, name, *sorts):
         if name not in self._ufs:
